@@ -51,7 +51,7 @@ def mk_file_rec(j):
 
 
 # ------------------------------------------------------------------ requests
-def req_to_json(o):
+def _req_to_json(o):
     """canonical view of a real request object (after construction or decode)"""
     c = type(o)
     if isinstance(o, brm.ReadCoilsRequest):
@@ -112,7 +112,7 @@ def info_to_json(info):
     return out
 
 
-def resp_to_json(o):
+def _resp_to_json(o):
     if isinstance(o, pdu_mod.ExceptionResponse):
         return {'t': 'exception', 'fc': o.original_code, 'code': o.exception_code}
     if isinstance(o, brm.ReadCoilsResponse):
@@ -199,3 +199,23 @@ def enc_abstract_req(r, data_follows='values'):
     if t == 'illegalFunction':
         return bytes([r['fc']]) + bytes(r.get('data', []))
     raise ValueError(t)
+
+
+
+def _safe(f, o):
+    """a message object whose attributes are not those of its class (e.g. an object re-classed by a decoder to a
+    class it was not decoded as) is reported as such instead of crashing the harness: it then differs from every
+    expected value"""
+    try:
+        return f(o)
+    except (AttributeError, TypeError, KeyError, IndexError, ValueError) as e:
+        return {'t': 'malformed-object', 'cls': type(o).__name__, 'error': type(e).__name__ + ': ' + str(e)[:120]}
+
+
+def req_to_json(o):
+    """canonical view of a real request object (after construction or decode)"""
+    return _safe(_req_to_json, o)
+
+
+def resp_to_json(o):
+    return _safe(_resp_to_json, o)
